@@ -6,13 +6,18 @@ from lib.tlc import MachineryError
 FULL_VIEW = {"accepted", "refused", "bins", "freq", "err2", "under", "over", "dtype", "name", "keep", "stats", "live"}
 
 
-def run_pool(ctx, cfg, required, view, embeddings, budget=None):
+def run_pool(ctx, cfg, required, view, embeddings, budget=None, free_too=False):
     bad = check_promotion_table()
     if bad:
         raise MachineryError(f"PhystRec.Promote disagrees with numpy.promote_types: {bad[:3]}")
     _res, g = ctx.model_check(cfg, required_actions=required)
     for pe, sp in embeddings:
         ctx.replay(g, PoolAdapter(POS[pe], spelling=sp), view, label=f"{cfg}:{pe}/sp{sp}", edge_budget=budget)
+    if free_too:
+        # the same behaviours with free arithmetics enabled around every call: nothing but the array / negative-content refusals
+        # may depend on the switch
+        ctx.replay(g, PoolAdapter(POS["dyadic"], spelling=1, free_all=True), view, label=f"{cfg}:dyadic/sp1/free-arithmetics-on",
+                   edge_budget=min(budget or 40000, 40000))
     return g
 
 
@@ -24,4 +29,4 @@ def stats_part(ctx, tier):
     if not os.path.exists(os.path.join(SPEC_DIR, cfg + ".cfg")):
         return
     run_pool(ctx, cfg, ["New", "Add", "IAdd", "Copy", "Mul", "IMul", "Div", "Sub", "Fill"],
-             {"accepted", "stats", "freq", "live"}, [("dyadic", 0), ("neg", 1)])
+             {"accepted", "stats", "freq", "live"}, [("dyadic", 0), ("neg", 1)], free_too=True)
